@@ -382,17 +382,18 @@ def rule_D4(ctx):
         det = ""
         if ok:
             ev = evaluator(ctx, gf, cs[0][1])
-            a = [ev.ev(x) for x in cs[0][0].args]
-            base = A(f"self.get_path({params[0]})")
-            sliced = A(f"slice({base.key()},{params[1]}::)")
+            key = ev.ev(cs[0][0]).key()
+            base = f"self.get_path({params[0]})"
+            off = params[1]
             conds = path_conds_struct(ctx, gf, p)
-            if len(a) == 2 and a[0] == A("self.parent_stream") and a[1] == sliced:
+            sliced = {f"RolandFile(self.parent_stream,slice({base},{off}::))", f"RolandFile(self.parent_stream,slice({base},max(0,{off})::))"}
+            if key in sliced:
                 ok = True
-            elif len(a) == 2 and a[0] == A("self.parent_stream") and a[1] == base:
-                ok = cond_taken(conds, A(params[1]), "<=")
+            elif key == f"RolandFile(self.parent_stream,{base})":
+                ok = cond_taken(conds, A(off), "<=")
             else:
                 ok = False
-            det = "" if ok else f"RolandFile({', '.join(x.key() for x in a)}) under [{p.cond_key()}]"
+            det = "" if ok else f"{key} under [{p.cond_key()}]"
         ctx.ob("D4", p.ret_node, "file = chain from get_path(index) minus exactly `cluster_offset` leading clusters (all of it when the offset is 0)", ok, det,
                inst=f"get_file:{p.cond_key()}")
         okr = p.ret is not None and len(cs) == 1 and p.ret.key().startswith("RolandFile(")
@@ -405,22 +406,32 @@ def rule_D4(ctx):
         ctx.ob("D4", p.ret_node, "segment = Segment(partition stream, get_path(index))", ok, "" if ok else f"returns {p.ret.key() if p.ret else None}", inst="get_segment")
     # the sample entry passes the directory's fat_entry and the parameter's cluster_top
     se = ctx.fn("smpl_extract/roland/s7xx/sample_entry.py", "SampleEntryAdapter._decode_element", "D4")
-    calls = [c for c in own_nodes(se) if isinstance(c, ast.Call) and isinstance(c.func, ast.Attribute) and c.func.attr == "get_file"]
-    ok = len(calls) == 1
-    if ok:
-        c = calls[0]
-        a0 = norm(c.args[0]) if c.args else ""
-        kw = {k.arg: norm(k.value) for k in c.keywords}
-        a1 = kw.get("cluster_offset", norm(c.args[1]) if len(c.args) > 1 else "")
-        ok = a0 == "container.directory.fat_entry" and a1 == "container.parameter.cluster_top"
-    ctx.ob("D4", calls[0] if calls else se, "sample data stream = FAT chain of directory.fat_entry, skipping parameter.cluster_top clusters", ok, "", inst="sample_entry-get_file")
+    keys = set()
+    n_calls = 0
+    for p in run_paths(ctx, se, rule="D4", limit=4000):
+        for c, e, st in calls_on(p, attr="get_file"):
+            n_calls += 1
+            k = evaluator(ctx, se, e).ev(c).key()
+            keys.add(k[k.index(".get_file("):] if ".get_file(" in k else k)
+    obj = se.args.args[1].arg
+    want = {f".get_file({c}.directory.fat_entry,{c}.parameter.cluster_top)" for c in (obj, f"cast(SampleEntryContainer,{obj})")}
+    ok = n_calls >= 1 and keys <= want and bool(keys)
+    ctx.ob("D4", se, "sample data stream = FAT chain of directory.fat_entry, skipping parameter.cluster_top clusters", ok, "" if ok else f"{sorted(keys)}", inst="sample_entry-get_file")
     # AKAI: volume directory and file streams come from get_segment(start)
     va = ctx.fn("smpl_extract/akai/volume.py", "VolumesAdapter._decode_element", "D4")
     calls = [c for c in own_nodes(va) if isinstance(c, ast.Call) and isinstance(c.func, ast.Attribute) and c.func.attr == "get_segment"]
     ok = len(calls) == 1 and norm(calls[0].args[0]) in ("volume_sector", "volume_entry.start")
     ctx.ob("D4", calls[0] if calls else va, "volume directory stream = segment starting at the volume entry's start sector", ok, "", inst="volume-get_segment")
     fe = ctx.prog.assigned("smpl_extract/akai/file_entry.py", "FileEntryConstruct", "D4")
-    lam = [n for n in ast.walk(fe) if isinstance(n, ast.Lambda)]
-    ok = len(lam) == 1 and norm(lam[0].body) == "StreamWrapper(this._.sat.get_segment(this.start), this.size)"
-    ctx.ob("D4", lam[0] if lam else fe, "file stream = StreamWrapper(segment at entry.start, entry.size)", ok, norm(lam[0].body) if lam else "",
+    from ..core.layout import Layouts, Describer
+    comp = [c for c in ast.walk(fe) if isinstance(c, ast.Call) and isinstance(c.func, ast.Name) and c.func.id == "Computed" and c.args]
+    got = []
+    d = Describer(Layouts(ctx))
+    for c in comp:
+        try:
+            got.append(d.canon(c.args[0], ctx.prog.module("smpl_extract/akai/file_entry.py")))
+        except Exception as e:  # unrecognised expression: reported as a mismatch with its reason
+            got.append(f"<{type(e).__name__}>")
+    ok = "StreamWrapper(this._.sat.get_segment(this.start),this.size)" in got
+    ctx.ob("D4", fe, "file stream = StreamWrapper(segment at entry.start, entry.size)", ok, "" if ok else f"{got}",
            inst="file_entry-stream", file="smpl_extract/akai/file_entry.py", qualname="<module>")
